@@ -14,7 +14,7 @@
 From Coq Require Import ZArith List Bool.
 From Tickit Require Import RectDefs WinRectSet WinDefs WinSpec WinHist
   WinExposeProofs WinLogDisjoint WinFlushProofs WinScreenInv WinPreserve WinTermResize WinHistory WinC01Extra
-  WinRectSetProofs WinScrollDesc WinScrollRegion WinScrollFold WinScrollSpec WinScrollOps WinScrollInv WinHistoryFull WinReDefs WinReProofs WinReFlags WinReEstablish WinReExample.
+  WinRectSetProofs WinScrollDesc WinScrollRegion WinScrollFold WinScrollSpec WinScrollOps WinScrollInv WinHistoryFull WinReDefs WinReProofs WinReFlags WinReEstablish WinReExample WinReForest.
 From Tickit Require WinInput WinInputProofs.
 Import ListNotations.
 Local Open Scope Z_scope.
@@ -236,6 +236,33 @@ Theorem C01_reentrant_flush : forall app progs racts st tm st' tm' lg,
   ScreenInv app st' tm' /\ ids_unique (r_tree st') /\ WinInputProofs.ids_unique st'.
 Proof. exact (@WinReEstablish.flush_re_establishes). Qed.
 Print Assumptions C01_reentrant_flush.
+
+(* uniqueness of window ids over the tree and the detached subtrees is an invariant of the
+   history model -- every operation of the alphabet, every defect configuration, handlers
+   re-entering with any calls -- as long as a new window's id is fresh for the whole forest
+   ([new_fresh]: for ONew, f_find st id = None; no condition on any other operation) *)
+Theorem C01_forest_unique_init : forall nl nc orc,
+  WinInputProofs.ids_unique (m_root (m_init nl nc orc)).
+Proof. exact forest_unique_init. Qed.
+Print Assumptions C01_forest_unique_init.
+
+Theorem C01_forest_unique_step : forall cfg progs o m,
+  WinInputProofs.ids_unique (m_root m) -> new_fresh o (m_root m) ->
+  WinInputProofs.ids_unique (m_root (step cfg progs o m)).
+Proof. exact forest_unique_step. Qed.
+Print Assumptions C01_forest_unique_step.
+
+Theorem C01_forest_unique_step_re : forall cfg progs racts o m,
+  WinInputProofs.ids_unique (m_root m) -> new_fresh o (m_root m) ->
+  WinInputProofs.ids_unique (m_root (step_re cfg progs racts o m)).
+Proof. exact forest_unique_step_re. Qed.
+Print Assumptions C01_forest_unique_step_re.
+
+Theorem C01_forest_unique_run : forall cfg progs ops nl nc orc,
+  run_fresh cfg progs ops (m_init nl nc orc) ->
+  WinInputProofs.ids_unique (m_root (run cfg progs ops (m_init nl nc orc))).
+Proof. exact forest_unique_history. Qed.
+Print Assumptions C01_forest_unique_run.
 
 (* a window closes itself in its own expose handler while its parent's child list is being
    walked: the sibling behind it is still exposed in the same flush (log 1, 2, 0), the closed
